@@ -1,12 +1,369 @@
-use crate::util::Report;
-use crate::Ctx;
-use serde_json::Value;
+//! C02 — a block decodes exactly when the received symbols determine it.
+//! Oracle: independent rank of the RFC 6330 constraint matrix for the received set, maintained
+//! incrementally so that the predicate is known after every prefix of the arrival sequence.
 
-pub fn run(_ctx: &Ctx, _rep: &mut Report) {
-    eprintln!("not implemented yet");
-    std::process::exit(2);
+use crate::codec::{block_cfg, make_data, repair_esi, DataClass};
+use crate::reference as rf;
+use crate::util::{catch, fnv_u64s, run_items, run_sharded, simple_failure, Report, SplitMix, Stats, Tier};
+use crate::Ctx;
+use proptest::prelude::*;
+use raptorq::{EncodingPacket, SourceBlockDecoder, SourceBlockEncoder};
+use serde_json::{json, Value};
+use std::collections::{BTreeSet, HashMap};
+use std::sync::{Arc, Mutex, OnceLock};
+
+#[derive(Debug, Clone)]
+pub struct Case {
+    k: u32,
+    t: usize,
+    /// distinct ESIs in arrival order
+    esis: Vec<u32>,
+    /// 0 default threshold, 1 sparse, 2 dense
+    backend: u8,
 }
 
-pub fn replay(_sub: &str, _case: &Value) -> Result<(), String> {
-    Err("not implemented".into())
+struct BlockFixture {
+    data: Vec<u8>,
+    enc: SourceBlockEncoder,
+    source: Vec<EncodingPacket>,
+    oracle: rf::RankOracle,
+    pr: rf::Params,
+}
+
+fn fixture(k: u32, t: usize) -> Arc<BlockFixture> {
+    static CACHE: OnceLock<Mutex<HashMap<(u32, usize), Arc<BlockFixture>>>> = OnceLock::new();
+    let cache = CACHE.get_or_init(|| Mutex::new(HashMap::new()));
+    if let Some(f) = cache.lock().unwrap().get(&(k, t)) {
+        return f.clone();
+    }
+    let pr = rf::params(k);
+    let data = make_data(DataClass::Random, 0xC02 + k as u64, k as usize * t);
+    let cfg = block_cfg(k as usize, t);
+    let enc = SourceBlockEncoder::new(0, &cfg, &data);
+    let source = enc.source_packets();
+    let f = Arc::new(BlockFixture { data, source, oracle: rf::base_oracle(&pr), enc, pr });
+    cache.lock().unwrap().insert((k, t), f.clone());
+    f
+}
+
+/// Build an arrival sequence of distinct ESIs: `s` source symbols and repair symbols from the
+/// three ESI classes, K + overhead in total, in an order chosen by `mode`.
+fn build_sequence(k: u32, s: u32, overhead: u32, seed: u64, mode: u8) -> Vec<u32> {
+    let mut rng = SplitMix::new(seed);
+    let s = s.min(k);
+    let mut src: Vec<u32> = (0..k).collect();
+    rng.shuffle(&mut src);
+    src.truncate(s as usize);
+    let total = (k + overhead) as usize;
+    let mut rep = BTreeSet::new();
+    let class_bias = rng.below(4);
+    let mut stale = 0u32;
+    while src.len() + rep.len() < total {
+        // a class with few distinct values (near: 41) may run dry: fall back to the uniform class
+        let class = if stale > 50 { 1 } else if class_bias == 3 { rng.next_u64() } else { class_bias };
+        if rep.insert(repair_esi(class, rng.next_u64(), k)) {
+            stale = 0;
+        } else {
+            stale += 1;
+        }
+    }
+    let mut rep: Vec<u32> = rep.into_iter().collect();
+    rng.shuffle(&mut rep);
+    let mut all = vec![];
+    match mode % 3 {
+        0 => {
+            all.extend(src);
+            all.extend(rep);
+            rng.shuffle(&mut all);
+        }
+        1 => {
+            all.extend(src);
+            all.extend(rep);
+        }
+        _ => {
+            all.extend(rep);
+            all.extend(src);
+        }
+    }
+    all
+}
+
+fn strategy(kmax: u32) -> impl Strategy<Value = Case> {
+    (
+        prop_oneof![6 => 1u32..=60, 2 => 1u32..=kmax, 1 => Just(10u32), 1 => Just(26u32)],
+        any::<u64>(),
+        0u8..12,
+        any::<u64>(),
+        0u8..3,
+        prop_oneof![3 => Just(1usize), 1 => Just(3usize)],
+        0u8..3,
+    )
+        .prop_map(|(k, rs, omode, seed, mode, t, backend)| {
+            let pr = rf::params(k);
+            // number of source symbols: 0..K-1 of them, or all K
+            let s = match rs % 5 {
+                0 => k,
+                1 => 0,
+                2 => k.saturating_sub(1),
+                _ => ((rs >> 8) % (k as u64 + 1)) as u32,
+            };
+            // overhead classes: {0,1,2,3} U {H-2..H+3} U {S+H}; the last two straddle the trigger
+            // of the binary-only fast path (received >= K + H)
+            let overhead = match omode {
+                0..=3 => omode as u32,
+                4..=9 => pr.h - 2 + (omode as u32 - 4),
+                10 => pr.s + pr.h,
+                _ => pr.h + 3 + ((rs >> 20) % 6) as u32,
+            };
+            Case { k, t, esis: build_sequence(k, s, overhead, seed, mode), backend }
+        })
+}
+
+fn packet(fx: &BlockFixture, esi: u32) -> EncodingPacket {
+    if esi < fx.pr.k {
+        fx.source[esi as usize].clone()
+    } else {
+        fx.enc.repair_packets(esi - fx.pr.k, 1).pop().unwrap()
+    }
+}
+
+fn check(c: &Case, st: &mut Stats) -> Result<(), String> {
+    let fx = fixture(c.k, c.t);
+    let pr = fx.pr;
+    let k = c.k;
+    let cfg = block_cfg(k as usize, c.t);
+    let mut dec = SourceBlockDecoder::new(0, &cfg, (k as usize * c.t) as u64);
+    match c.backend {
+        1 => dec.verif_set_sparse_threshold(0),
+        2 => dec.verif_set_sparse_threshold(u32::MAX),
+        _ => {}
+    }
+    let mut oracle = fx.oracle.clone();
+    let mut src = 0u32;
+    let mut received = 0u32;
+    let mut nontrivial_prefix = false;
+    let (mut deficient_at_k, mut fast_path_fallback, mut fast_path_ok, mut all_source_path) = (0u32, 0u32, 0u32, false);
+    let mut isis: Vec<u32> = (k..pr.kp).collect();
+    for (step, &esi) in c.esis.iter().enumerate() {
+        let isi = rf::esi_to_isi(&pr, esi);
+        oracle.insert(rf::enc_row(&pr, isi));
+        isis.push(isi);
+        received += 1;
+        if esi < k {
+            src += 1;
+        }
+        let got = dec.decode(std::iter::once(packet(&fx, esi)));
+        let full = oracle.full();
+        let want = src == k || full;
+        st.eval();
+        if received >= k && src < k {
+            nontrivial_prefix = true;
+            if !full {
+                deficient_at_k += 1;
+            }
+            // fast path is attempted when received >= K + H (S + encoded >= L)
+            if received >= k + pr.h && full {
+                if rf::rank_binary(&pr, &isis) < pr.l as usize {
+                    fast_path_fallback += 1;
+                } else {
+                    fast_path_ok += 1;
+                }
+            }
+        }
+        if src == k {
+            all_source_path = true;
+        }
+        match (&got, want) {
+            (Some(bytes), true) => {
+                if bytes != &fx.data {
+                    return Err(format!("K={k}: after {} symbols the decoder returned wrong bytes (step {step})", received));
+                }
+            }
+            (None, false) => {}
+            (None, true) => {
+                return Err(format!(
+                    "K={k} (K'={}, L={}): gave up on a decodable set: {} distinct symbols ({} source), rank(A) = {} = L, yet decode() returned None (step {step}, received >= K+H: {})",
+                    pr.kp, pr.l, received, src, oracle.rank(), received >= k + pr.h
+                ));
+            }
+            (Some(_), false) => {
+                return Err(format!(
+                    "K={k} (K'={}, L={}): answered for an undecodable set: {} distinct symbols ({} source), rank(A) = {} < L (step {step})",
+                    pr.kp, pr.l, received, src, oracle.rank()
+                ));
+            }
+        }
+    }
+    st.class_n("prefix: rank-deficient at >= K symbols (decoder must say None)", deficient_at_k as u64);
+    st.class_n("prefix: binary-only attempt fails, full solve must succeed", fast_path_fallback as u64);
+    st.class_n("prefix: binary-only attempt sufficient", fast_path_ok as u64);
+    st.class_if(all_source_path, "history reaching all K source symbols");
+    st.class_if(pr.kp > k, "padding symbols present");
+    st.class(match c.backend {
+        1 => "back-end: sparse",
+        2 => "back-end: dense",
+        _ => "back-end: default",
+    });
+    if nontrivial_prefix {
+        let mut v: Vec<u64> = vec![k as u64, c.t as u64];
+        v.extend(c.esis.iter().map(|&e| e as u64));
+        st.nt(fnv_u64s(&v));
+    }
+    st.sample(|| json!({"K": k, "K'": pr.kp, "L": pr.l, "H": pr.h, "arrivals": c.esis.len(), "first_esis": &c.esis[..c.esis.len().min(12)], "deficient_prefixes": deficient_at_k, "fallback_prefixes": fast_path_fallback}));
+    Ok(())
+}
+
+// --- large blocks: structured rank at selected set sizes -----------------------------------------
+
+#[derive(Debug, Clone)]
+pub struct LargeItem {
+    k: u32,
+    s: u32,
+    overhead: u32,
+    seed: u64,
+    backend: u8,
+}
+
+fn check_large(it: &LargeItem, st: &mut Stats) -> Result<(), String> {
+    let k = it.k;
+    let pr = rf::params(k);
+    let esis = build_sequence(k, it.s, it.overhead, it.seed, 0);
+    let data = make_data(DataClass::Random, it.seed, k as usize);
+    let cfg = block_cfg(k as usize, 1);
+    let enc = SourceBlockEncoder::new(0, &cfg, &data);
+    let src = enc.source_packets();
+    let mut dec = SourceBlockDecoder::new(0, &cfg, k as u64);
+    match it.backend {
+        1 => dec.verif_set_sparse_threshold(0),
+        2 => dec.verif_set_sparse_threshold(u32::MAX),
+        _ => {}
+    }
+    let pkts: Vec<EncodingPacket> = esis
+        .iter()
+        .map(|&e| if e < k { src[e as usize].clone() } else { enc.repair_packets(e - k, 1).pop().unwrap() })
+        .collect();
+    let got = dec.decode(pkts);
+    let mut isis: Vec<u32> = (k..pr.kp).collect();
+    isis.extend(esis.iter().map(|&e| rf::esi_to_isi(&pr, e)));
+    let n_src = esis.iter().filter(|&&e| e < k).count() as u32;
+    let rank = rf::rank_structured(&pr, &isis);
+    let want = n_src == k || rank == pr.l as usize;
+    st.eval();
+    st.class_if(rank < pr.l as usize, "rank-deficient set");
+    st.class_if(it.overhead >= pr.h, "binary-only fast path attempted");
+    if n_src < k {
+        st.nt(fnv_u64s(&[k as u64, it.s as u64, it.overhead as u64, it.seed]));
+    }
+    st.sample(|| json!({"K": k, "L": pr.l, "source": n_src, "overhead": it.overhead, "rank": rank}));
+    match (&got, want) {
+        (Some(b), true) if b == &data => Ok(()),
+        (Some(_), true) => Err(format!("K={k}: wrong bytes")),
+        (None, false) => Ok(()),
+        (None, true) => Err(format!("K={k} (L={}): gave up on a decodable set ({} symbols, {} source, rank {} = L)", pr.l, esis.len(), n_src, rank)),
+        (Some(_), false) => Err(format!("K={k} (L={}): answered for an undecodable set (rank {rank} < L)", pr.l)),
+    }
+}
+
+fn to_json(c: &Case) -> Value {
+    json!({"k": c.k, "t": c.t, "esis": c.esis, "backend": c.backend})
+}
+
+fn from_json(v: &Value) -> Case {
+    Case {
+        k: v["k"].as_u64().unwrap() as u32,
+        t: v["t"].as_u64().unwrap() as usize,
+        esis: v["esis"].as_array().unwrap().iter().map(|x| x.as_u64().unwrap() as u32).collect(),
+        backend: v["backend"].as_u64().unwrap_or(0) as u8,
+    }
+}
+
+fn signature(_: &Case, msg: &str) -> String {
+    sig(msg)
+}
+
+fn sig(msg: &str) -> String {
+    let kind = if msg.contains("panic") {
+        "panic"
+    } else if msg.contains("gave up") {
+        if msg.contains("received >= K+H: true") {
+            "gave-up:fast-path-range"
+        } else {
+            "gave-up"
+        }
+    } else if msg.contains("undecodable") {
+        "answered-undecodable"
+    } else if msg.contains("wrong bytes") {
+        "wrong-bytes"
+    } else {
+        "other"
+    };
+    format!("decodability:{kind}")
+}
+
+pub fn run(ctx: &Ctx, rep: &mut Report) {
+    rep.rule = "generated arrival sequences of distinct ESIs for one block: K in 1..=60 weighted (up to 300 quick / 600 thorough), a generated number of source symbols (none, all, K-1, or uniform) plus repair ESIs from the near / uniform-24-bit / far classes, K + overhead symbols in total with overhead in {0,1,2,3} U {H-2..H+3} U {S+H} U {H+3..H+8} (the latter straddle the trigger of the binary-only fast path), in shuffled / source-first / repair-first order, decoder back-end default / sparse / dense. After EVERY packet: decode(..).is_some() <=> (all K source symbols received) or (rank of the RFC constraint matrix for the received set = L), with the rank computed by an independent incremental GF(256) elimination over reference-generated rows; Some implies the right bytes. Large blocks (K' up to 2000 quick / 10000 thorough) are checked at selected set sizes with a structured rank routine (bit-packed GF(2) elimination + GF(256) residual of the HDPC rows). Non-trivial = a sequence with a prefix of >= K distinct symbols and a source symbol missing; distinct by (K, T, sequence).".into();
+    rep.assumptions.push("rank oracle rows come from the reference model (trusted tables); exact incremental oracle for K <= 600, structured rank up to K' = 10000; beyond that only C01's soundness applies".into());
+    let kmax = ctx.tier.pick(300u32, 600);
+    let n = std::env::var("C02_N").ok().and_then(|s| s.parse().ok()).unwrap_or(ctx.tier.pick(60_000u64, 1_200_000));
+    rep.absorb("prefixes", run_sharded("C02", "prefixes", ctx.seed, n, 64, move || strategy(kmax), check, to_json, signature));
+
+    // large blocks
+    let mut rng = SplitMix::new(crate::util::mix(ctx.seed, 202));
+    let mut items = vec![];
+    let kps: Vec<u32> = rf::tables().t2.iter().map(|r| r.0).filter(|&k| k <= 2000).collect();
+    let reps = ctx.tier.pick(1usize, 6);
+    for _ in 0..reps {
+        for &kp in &kps {
+            if kp < 300 {
+                continue;
+            }
+            let pr = rf::params(kp);
+            let k = if rng.below(2) == 0 { kp } else { kp - 1 - rng.below(5) as u32 };
+            for overhead in [0u32, 1, pr.h - 1, pr.h, pr.h + 1] {
+                if ctx.tier == Tier::Quick && rng.below(3) != 0 {
+                    continue;
+                }
+                let s = match rng.below(4) {
+                    0 => 0,
+                    1 => k - 1,
+                    _ => rng.below(k as u64) as u32,
+                };
+                items.push(LargeItem { k, s, overhead, seed: rng.next_u64(), backend: rng.below(3) as u8 });
+            }
+        }
+    }
+    if ctx.tier == Tier::Thorough {
+        for k in [2500u32, 3000, 4000, 5000, 6000, 7000, 8000, 9000, 9999, 10000] {
+            let pr = rf::params(k);
+            for overhead in [0u32, 1, pr.h] {
+                items.push(LargeItem { k, s: rng.below(k as u64) as u32, overhead, seed: rng.next_u64(), backend: 0 });
+            }
+        }
+    }
+    let mut out = run_items(&items, |it, st| {
+        let r = match catch(|| check_large(it, st)) {
+            Ok(r) => r,
+            Err(p) => Err(format!("K={}: panic: {p}", it.k)),
+        };
+        r.map_err(|m| simple_failure("large", m.clone(), sig(&m), json!({"k": it.k, "s": it.s, "overhead": it.overhead, "seed": it.seed, "backend": it.backend})))
+    });
+    out.failures.truncate(1);
+    rep.absorb("large", out);
+}
+
+pub fn replay(sub: &str, case: &Value) -> Result<(), String> {
+    let mut st = Stats::new();
+    match sub {
+        "large" => check_large(
+            &LargeItem {
+                k: case["k"].as_u64().unwrap() as u32,
+                s: case["s"].as_u64().unwrap() as u32,
+                overhead: case["overhead"].as_u64().unwrap() as u32,
+                seed: case["seed"].as_u64().unwrap(),
+                backend: case["backend"].as_u64().unwrap() as u8,
+            },
+            &mut st,
+        ),
+        _ => check(&from_json(case), &mut st),
+    }
 }
